@@ -159,6 +159,9 @@ def earley_parse(P, start, tokens, max_trees=2):
             if dot < len(r):
                 sym = r[dot]
                 if sym in nts:
+                    # a nonterminal may also appear in the input (sentential forms): it is then a leaf
+                    if i < n and tokens[i] == sym:
+                        add(i + 1, (pi, dot + 1, org), (item, None, i))
                     for qi in by_lhs[sym]:
                         if add(i, (qi, 0, i), None):
                             agenda.append((qi, 0, i))
